@@ -2,6 +2,11 @@
 BASE_OFF = "cd /repo && GOFLAGS=-mod=mod GOPROXY=off go test -mod=mod -json -vet=off -count=1 -timeout 25m ./..."
 
 ENGINES = [
+    dict(name="bridgeapi", path="specs/BridgeAPI.tla specs/BridgeAPITrace.tla specs/Merkle.tla harness/areas/bridgeapi harness/names checks/C12.py",
+         serves_properties=["C12"],
+         kind_free_text="joint L1/L2 history spec with both binary searches and the proof assembly as coded; TLC exhaustive (joint + per-lookup focus configs); "
+                        "every TLC state is a history replayed into the real bridgeservice.New over real bridge/L1-info/injected-GER stores, requests through the "
+                        "real gin routes; named answers judged by TLC"),
     dict(name="lastger", path="specs/LastGER.tla specs/LastGERTrace.tla harness/areas/lastger checks/C16.py", serves_properties=["C16"],
          kind_free_text="TLC exhaustive on the PP downloader/driver/processor/reorg-detector spec (repaired rule passes; rule as coded and first repair "
                         "candidate kept as counterexample regressions); sampled edge cover + seeded random + regression schedules replayed into the real "
@@ -57,6 +62,22 @@ CHECKS = {
              "every received certificate TLC checks that all claim proofs name one L1 info root with the stated leaf count, that the L1 leaf, its GER, "
              "and each sibling of the GER->root, leaf->MER / leaf->LER and LER->RER legs carry the names of the reference subtrees (hence fold to the "
              "roots), and that the GER is the one the claim was made against."),
+    "C12": dict(engine="bridgeapi", category="model_checking", design_ref="DESIGN.md section 5 C12",
+        text="TLC checks getFirstL1InfoTreeIndexForL1Bridge / ...ForL2Bridge as coded (block-granular midpoint, first row of the first block >= target, initial "
+             "not-yet-covered test, bestResult updates, equality break, GetRootByLER failing on the zero MER, verify rows only for effective updates, "
+             "GetFirstL1InfoWithRollupExitRoot by equality) and the ClaimProof assembly (top-down walks over content-addressed node tables) over all joint "
+             "histories within the bounds (deposits on both networks, several info leaves per block, block gaps, verified batches of two rollups incl. skipped "
+             "ones) against: a returned index covers the bridge and so does every later leaf; the claim proof for every covering leaf folds leaf->MER resp. "
+             "leaf->LER->RER. Every reachable history (seeded sample in quick) plus seeded random larger histories (gaps up to 10^4 blocks, 3 rollups) is fed "
+             "through the real ProcessBlock of two bridge stores, the L1 info store and the injected-GER store; /l1-info-tree-index, /claim-proof and "
+             "/injected-l1-info-leaf are requested through the real gin engine of bridgeservice.New after every L1 block, every hash is named by the reference "
+             "implementation, and TLC judges: index covers or error; claim proofs of all covering (bridge, leaf) pairs are the reference sibling lists for both "
+             "legs with the leaf's MER/RER; injected leaf is a later injected leaf of the history. The model's predicted lookup answers are compared with the real "
+             "ones (drift = note). Wrong spec variants must violate the invariants (sensitivity) and corrupted traces must be rejected (binding self-test).",
+        note="trusted: TLC; reference keccak Merkle trees / leaf packing in harness/names; stores fully synced when queried; a lookup error while a covering "
+             "leaf exists is accepted by the statement and only counted (zero-MER leaf / RER without leaf); a /claim-proof error for a covering pair is a "
+             "violation; bounds: exhaustive <= 3 bridges per network, <= 6 leaves, <= 5 blocks, <= 3 verified batches, H=2..3 in the model, height 32 in replay",
+        technique="TLA+ model checking (TLC) + history replay into the real service over real stores + TLC trace validation"),
     "C13": dict(engine="aggsender", category="model_checking", design_ref="DESIGN.md section 5 C13", technique=_AG_TECH, note=_AG_NOTE,
         text="TLC explores a crash at every visible step of the send path (before submit, after submit, after store), loss of the certificate DB while "
              "down and restarts, with and without prev-LER in Agglayer headers, and checks the ledger invariants plus 'a fault-free restart never "
